@@ -381,6 +381,23 @@ class AssertionContract(Contract):
         self.params = type(self.params)(params)
         return Contract.verify(self, registry, quick)
 
+    def apply(self, it, args, kwargs, selfobj=None):
+        # used at a call site (one assertion calling another): parameters and defaults from the current signature
+        params, kwarg = params_from_signature(self.ident, self.overrides)
+        self.params = type(self.params)(params)
+        fn = extract.get_function(self.ident)
+        a = fn.node.args
+        pos = [p.arg for p in a.posonlyargs + a.args if p.arg not in ('self', 'cls')]
+        import ast as _ast
+        self.defaults = {}
+        for name, d in zip(pos[len(pos) - len(a.defaults):], a.defaults):
+            try:
+                self.defaults[name] = _ast.literal_eval(d)
+            except Exception:
+                pass
+        self.varargs_ok = kwarg is not None
+        return Contract.apply(self, it, args, kwargs, selfobj)
+
 
 def assertion(name, ref_param, overrides, eff_kind='kind', many=False, props=('C10',), extra=None):
     ident = RT + 'ReferenceTest.' + name
@@ -427,6 +444,11 @@ _a = assertion('assertOnDiskDataFrameCorrect', 'ref_path', dict(_BASE),
                eff_kind="('csv' if kind == 'parquet' else kind)")
 assertion('assertOnDiskDataFramesCorrect', 'ref_paths',
           dict(_BASE, ref_paths=_TWO, actual_paths=_TWO), many=True,
+          eff_kind="('csv' if kind == 'parquet' else kind)")
+
+
+# the legacy CSV-file assertions hand their own kind on to the on-disk assertions (same keying of 'parquet')
+assertion('assertCSVFileCorrect', 'ref_csv', dict(_BASE, ref_csv=T.str),
           eff_kind="('csv' if kind == 'parquet' else kind)")
 
 
